@@ -84,6 +84,10 @@ C['C03'] = dict(level=TV, engine='E1+E3', design='§2 C03',
    technique='SMT two-sided entailment between the reduced and unreduced systems produced by the real parser/reducer over an enumerated block grammar; CrossHair symbolic execution of SetInitialConditions for k=0',
    text='For every block of a grammar (three prefix-sharing variables x 14 right-hand-side shapes incl. aliases of variables/exogenous/lagged/constants, signed and spaced aliases, products, user functions, lags, initial conditions; plus 4-variable alias/decorative chains) the real ParseString/ValidateInputs/EquationReduction run and z3 shows original |= every reduced equation and reduced |= every original equation with lagged and exogenous values free, plus structural side conditions (same variables once each, simultaneous equations mention no decorative variable, decorative dependencies acyclic). k=0: CrossHair runs the real SetInitialConditions with reduction on and off on 8 block shapes with symbolic initial-condition and exogenous values and must confirm equal time-zero values.',
    note='Numerical agreement of the two iterative solves is outside (differs at tolerance level by construction). Equality loops are refused with ValueError (outcome).')
+C['C14'] = dict(level=MC, engine='E2+E1', design='§2 C14',
+   technique='symbolic execution of the unmodified EquationParser.ParseString on semi-symbolic strings (symbolic characters, z3 Ints) with all comment texts up to the length bound; SMT equivalence of parsed right-hand sides over enumerated line forms',
+   text='The real ParseString runs on eight block sites (equation, last endogenous, lag, initial-condition, marker, exogenous, parameter and comment-only lines) whose comment text is a symbolic string of every length 0..12 (16 thorough) over printable ASCII; every feasible path is explored and the parser lists must equal those of the comment-free block (for a stand-alone comment line carrying the marker word: those of the block with the marker there); witnesses are concrete strings from the z3 model. Enumerated line forms x spacings x lag notations x shuffles are classified and their parsed right-hand sides shown equivalent to the written ones; descriptions/long names from a token alphabet are pushed through Model.main() (enumerated).',
+   note='Trusted: SymStr duck class (only the str methods the parser uses; collapses to str when no symbolic character remains). Non-ASCII text outside.')
 PENDING = {}
 ALL = ['C%02d' % i for i in range(1, 21)]
 checks = []
